@@ -442,4 +442,302 @@ theorem lexIdentifier_lay_local {up : UParams} (hl : UpLay up) (c : Nat) (y : Li
       · simp only [hq2, Bool.false_eq_true, ↓reduceIte] at h ⊢
         rw [← hN]; exact h
 
+/-! ## `consume_character` -/
+
+theorem spanLen_swap {p : Nat → Bool} (Y : List Nat) {d d' : Nat} (r r' : List Nat)
+    (h : spanLen p (Y ++ d :: r) ≤ Y.length) (hd' : spanLen p (Y ++ d :: r) = Y.length → p d' = false) :
+    spanLen p (Y ++ d' :: r') = spanLen p (Y ++ d :: r) := by
+  induction Y with
+  | nil =>
+    simp only [List.nil_append, List.length_nil, Nat.le_zero_eq] at h hd' ⊢
+    have hpd : p d = false := by
+      cases hp : p d with
+      | false => rfl
+      | true => simp [spanLen, hp] at h
+    simp [spanLen, hpd, hd' h]
+  | cons c Y ih =>
+    simp only [List.cons_append, spanLen, List.length_cons] at h hd' ⊢
+    by_cases hc : p c = true
+    · simp only [hc, ↓reduceIte] at h hd' ⊢
+      rw [ih (by omega) (fun e => hd' (by omega))]
+    · simp [hc]
+
+/-- if the span reaches the end of `Y`, all of `Y` satisfies `p` -/
+theorem spanLen_ge_all {p : Nat → Bool} (Y t : List Nat) (h : Y.length ≤ spanLen p (Y ++ t)) :
+    ∀ x ∈ Y, p x = true := by
+  induction Y with
+  | nil => intro x hx; simp at hx
+  | cons c Y ih =>
+    simp only [List.cons_append, spanLen, List.length_cons] at h
+    by_cases hc : p c = true
+    · simp only [hc, ↓reduceIte] at h
+      intro x hx
+      rcases List.mem_cons.1 hx with rfl | hx
+      · exact hc
+      · exact ih (by omega) x hx
+    · simp [hc] at h
+
+/-- `next_char` in front of `y ++ d :: r`, when it takes at most `y` -/
+theorem nextChar_lay_local (c : Nat) (y : List Nat) {d d' : Nat} (r r' : List Nat)
+    {x n : Nat} {rest : List Nat} (h : nextChar (c :: (y ++ d :: r)) = some (x, n, rest)) (hn : n ≤ 1 + y.length)
+    (hcr : n = 1 + y.length → (c :: y).getLast? = some 13 → d' ≠ 10) :
+    ∃ rest', nextChar (c :: (y ++ d' :: r')) = some (x, n, rest') ∧ rest.isEmpty = false ∧ rest'.isEmpty = false := by
+  by_cases hc : c = 13
+  · subst hc
+    rcases y with _ | ⟨a, y⟩
+    · by_cases hd10 : d = 10
+      · subst hd10; simp [nextChar] at h; simp at hn; omega
+      · simp [nextChar, hd10] at h
+        obtain ⟨rfl, rfl, rfl⟩ := h
+        have := hcr (by simp) (by simp)
+        simp [nextChar, this]
+    · by_cases ha : a = 10
+      · subst ha; simp [nextChar] at h ⊢; obtain ⟨rfl, rfl, rfl⟩ := h; simp
+      · simp [nextChar, ha] at h ⊢; obtain ⟨rfl, rfl, rfl⟩ := h; simp
+  · have e : ∀ t, nextChar (c :: t) = some (c, 1, t) := by
+      intro t; rw [nextChar.eq_def]; split <;> simp_all
+    rw [e] at h ⊢
+    simp at h; obtain ⟨rfl, rfl, rfl⟩ := h; simp
+
+/-- `consume_character` that ends in front of a layout character: the same on every other layout character, unless it
+    ends exactly there and the other one would be taken as well (CR + LF, blank + blank, comment + anything but a line
+    break) -/
+theorem consumeCharacter_lay_local {cfg : Cfg} (hf : cfg.fullLexer = false) (st : LexState) (c : Nat) (y : List Nat)
+    {d d' : Nat} (hd : Lay d) (hd' : Lay d') (r r' : List Nat) {o : StepOut}
+    (h : consumeCharacter cfg st c (y ++ d :: r) = .ok o) (hc : o.consumed ≤ 1 + y.length)
+    (hcr : o.consumed = 1 + y.length → (c :: y).getLast? = some 13 → d' ≠ 10)
+    (hbl : o.consumed = 1 + y.length → (∀ x ∈ c :: y, isBlank x = true) → isBlank d' = false)
+    (hcm : o.consumed = 1 + y.length → c = 35 → isLineBreak d' = true) :
+    consumeCharacter cfg st c (y ++ d' :: r') = .ok o := by
+  have hNum := lexNumber_lay_local (c :: y) hd hd' r r'
+  simp only [List.cons_append] at hNum
+  unfold consumeCharacter at h ⊢
+  rw [← hNum, ← headIsDigit_lay_local y hd hd' r r']
+  by_cases h1 : isDigit c = true
+  · simpa only [h1, ↓reduceIte] using h
+  simp only [h1, Bool.false_eq_true, ↓reduceIte] at h ⊢
+  by_cases h2 : c = 35
+  · simp only [h2, ↓reduceIte, commentLen, hf, Bool.false_eq_true] at h ⊢
+    simp only [Except.ok.injEq] at h
+    subst h
+    simp only [skip] at hc hcm
+    have := spanLen_swap (p := fun c => !isLineBreak c) (35 :: y) (d := d) (d' := d') r r'
+      (by simpa [Nat.add_comm] using hc)
+      (by intro e; have := hcm (by simpa [Nat.add_comm] using e) h2; simp [this])
+    simp only [List.cons_append] at this
+    rw [this]
+  simp only [h2, ↓reduceIte] at h ⊢
+  by_cases h3 : isQuote c = true
+  · simp only [h3, ↓reduceIte] at h ⊢
+    obtain ⟨tok, n, hs, rfl⟩ := ofSub_inv h
+    have := lexString_lay_local .string (p := []) (by simp [StringKind.prefixLen]) h3 y hd hd' r r' (tok := tok) (n := n)
+      (by simpa using hs) (by simpa [one] using hc)
+    simp only [List.nil_append] at this
+    rw [this]; rfl
+  simp only [h3, Bool.false_eq_true, ↓reduceIte] at h ⊢
+  by_cases h4 : c = 33
+  · simp only [h4, ↓reduceIte] at h ⊢
+    rcases y with _ | ⟨a, y⟩
+    · have : d ≠ 61 := (opInert_lay hd).1
+      split at h
+      · rename_i heq; simp at heq; exact absurd heq.1 this
+      · simp at h
+    · simp only [List.cons_append] at h ⊢
+      by_cases ha : a = 61
+      · subst ha; exact h
+      · split at h
+        · rename_i heq; simp at heq; exact absurd heq.1 ha
+        · simp at h
+  simp only [h4, ↓reduceIte] at h ⊢
+  by_cases h5 : (c = 46 && headIsDigit (y ++ d :: r)) = true
+  · simpa only [h5, ↓reduceIte] using h
+  simp only [h5, Bool.false_eq_true, ↓reduceIte] at h ⊢
+  rw [← lexOp_lay_local h4 y hd hd' r r']
+  cases hO : lexOp (c :: (y ++ d :: r)) with
+  | some p => simpa only [hO] using h
+  | none =>
+    simp only [hO] at h ⊢
+    cases hob : openBracket c with
+    | some ob => simpa only [hob] using h
+    | none =>
+      simp only [hob] at h ⊢
+      cases hcb : closeBracket c with
+      | some cb => simpa only [hcb] using h
+      | none =>
+        simp only [hcb] at h ⊢
+        by_cases h6 : isLineBreak c = true
+        · simp only [h6, ↓reduceIte] at h ⊢
+          cases hnc : nextChar (c :: (y ++ d :: r)) with
+          | none => simp [hnc] at h
+          | some q =>
+            obtain ⟨x, n, rest⟩ := q
+            have hn : o.consumed = n := by
+              simp only [hnc] at h
+              split at h
+              · simp at h; subst h; simp [one]
+              · simp only [hf, Bool.false_eq_true, ↓reduceIte] at h
+                simp at h; subst h; simp [skip]
+            obtain ⟨rest', hnc', _, _⟩ := nextChar_lay_local c y r r' hnc (by omega) (by intro e; exact hcr (by omega))
+            simpa only [hnc, hnc'] using h
+        simp only [h6, Bool.false_eq_true, ↓reduceIte] at h ⊢
+        by_cases h7 : isBlank c = true
+        · simp only [h7, ↓reduceIte] at h ⊢
+          simp only [Except.ok.injEq] at h
+          subst h
+          simp only [skip] at hc hbl
+          have := spanLen_swap (p := isBlank) (c :: y) (d := d) (d' := d') r r'
+            (by simpa [Nat.add_comm] using hc)
+            (by
+              intro e
+              have e' : spanLen isBlank (c :: (y ++ d :: r)) = 1 + y.length := by simpa [Nat.add_comm] using e
+              exact hbl e' (spanLen_ge_all (p := isBlank) (c :: y) (d :: r) (by simp; omega)))
+          simp only [List.cons_append] at this
+          rw [this]
+        simp only [h7, Bool.false_eq_true, ↓reduceIte] at h ⊢
+        by_cases h8 : c = 92
+        · simp only [h8, ↓reduceIte] at h ⊢
+          rcases y with _ | ⟨a, y⟩
+          · simp only [List.nil_append] at h ⊢
+            by_cases hdb : isLineBreak d = true
+            · simp only [hdb, ↓reduceIte] at h
+              cases hnc : nextChar (d :: r) with
+              | none => simp [hnc] at h
+              | some q =>
+                obtain ⟨x, n, rest⟩ := q
+                have := (nextChar_ok hnc).1
+                simp only [hnc] at h
+                split at h
+                · simp at h
+                · simp at h; subst h; simp [skip] at hc; omega
+            · simp [hdb] at h
+          · simp only [List.cons_append] at h ⊢
+            by_cases ha : isLineBreak a = true
+            · simp only [ha, ↓reduceIte] at h ⊢
+              cases hnc : nextChar (a :: (y ++ d :: r)) with
+              | none => simp [hnc] at h
+              | some q =>
+                obtain ⟨x, n, rest⟩ := q
+                simp only [hnc] at h
+                split at h
+                · simp at h
+                · simp at h; subst h
+                  simp only [skip, List.length_cons] at hc hcr
+                  obtain ⟨rest', hnc', _, hr'⟩ := nextChar_lay_local a y r r' hnc (by omega)
+                    (by intro e h13; exact hcr (by omega) (by simpa using h13))
+                  simp [hnc', hr']
+            · simp only [ha, Bool.false_eq_true, ↓reduceIte] at h ⊢
+              exact h
+        simp only [h8, ↓reduceIte] at h ⊢
+        exact h
+
+/-! ## `eat_indentation`, `handle_indentations`, the step -/
+
+theorem spanLen_lt_local {p : Nat → Bool} (Y t t' : List Nat) (h : spanLen p (Y ++ t) < Y.length) :
+    spanLen p (Y ++ t') = spanLen p (Y ++ t) := by
+  induction Y with
+  | nil => simp at h
+  | cons c Y ih =>
+    simp only [List.cons_append, spanLen, List.length_cons] at h ⊢
+    by_cases hc : p c = true
+    · simp only [hc, ↓reduceIte] at h ⊢
+      rw [ih (by omega)]
+    · simp [hc]
+
+/-- `eat_indentation` that stops strictly inside `y` does not depend on what follows `y` -/
+theorem eatIndent_prefix_local (t1 t2 : List Nat) :
+    ∀ (n : Nat) (y : List Nat), y.length ≤ n → ∀ (pos s t : Nat) (o : EatOut),
+    eatIndent false (y ++ t1) 0 pos s t = .ok o → o.pos < pos + y.length →
+    eatIndent false (y ++ t2) 0 pos s t = .ok o := by
+  intro n
+  induction n with
+  | zero =>
+    intro y hy pos s t o h hp
+    have : y = [] := List.eq_nil_of_length_eq_zero (by omega)
+    subst this
+    have := eatIndent_pos_le h
+    simp at hp; omega
+  | succ n ih =>
+    intro y hy pos s t o h hp
+    cases y with
+    | nil => have := eatIndent_pos_le h; simp at hp; omega
+    | cons c y =>
+      have hy' : y.length ≤ n := by simp at hy; omega
+      simp only [List.cons_append, List.length_cons] at h hp ⊢
+      by_cases h32 : c = 32
+      · subst h32
+        simp only [eatIndent] at h ⊢
+        exact ih y hy' _ _ _ o h (by omega)
+      by_cases h9 : c = 9
+      · subst h9
+        simp only [eatIndent] at h ⊢
+        by_cases hs : s ≠ 0
+        · simp [hs] at h
+        · simp only [hs, ↓reduceIte] at h ⊢
+          exact ih y hy' _ _ _ o h (by omega)
+      by_cases h12 : c = 12
+      · subst h12
+        simp only [eatIndent] at h ⊢
+        exact ih y hy' _ _ _ o h (by omega)
+      by_cases h35 : c = 35
+      · subst h35
+        simp only [eatIndent, addTok_false] at h ⊢
+        generalize hmm : spanLen (fun c => !isLineBreak c) (y ++ t1) = m at h
+        have hml : m ≤ (y ++ t1).length := by rw [← hmm]; exact spanLen_le _ _
+        rw [eatIndent_skip _ m _ _ _ hml] at h
+        have hpos := eatIndent_pos_le h
+        have hmy : m < y.length := by omega
+        have hm2 : spanLen (fun c => !isLineBreak c) (y ++ t2) = m := by
+          rw [← hmm]; exact spanLen_lt_local y t1 t2 (by omega)
+        rw [hm2, eatIndent_skip _ m _ _ _ (by simp; omega)]
+        rw [drop_brk (Nat.le_of_lt hmy)] at h ⊢
+        exact ih (y.drop m) (by simp; omega) _ _ _ o h (by simp; omega)
+      by_cases h10 : c = 10
+      · subst h10
+        simp only [eatIndent, addTok_false] at h ⊢
+        exact ih y hy' _ _ _ o h (by omega)
+      by_cases h13 : c = 13
+      · subst h13
+        cases y with
+        | nil =>
+          exfalso
+          simp only [List.nil_append] at h
+          obtain ⟨e, post, hsplit, he, hn, _⟩ := eol_split (d := 13) (by decide) t1
+          rw [hsplit, eatIndent_eol he hn] at h
+          have := eatIndent_pos_le h
+          have : 1 ≤ e.length := by cases he <;> simp
+          simp at hp; omega
+        | cons a y =>
+          by_cases ha : a = 10
+          · subst ha
+            simp only [List.cons_append, eatIndent, addTok_false] at h ⊢
+            exact ih y (by simp at hy'; omega) _ _ _ o h (by simp at hp; omega)
+          · have e1 := eatIndent_eol (e := [13]) (post := a :: y ++ t1) .cr (fun _ => by simpa using ha) pos s t
+            have e2 := eatIndent_eol (e := [13]) (post := a :: y ++ t2) .cr (fun _ => by simpa using ha) pos s t
+            simp only [List.singleton_append, List.length_singleton] at e1 e2
+            rw [e1] at h; rw [e2]
+            exact ih (a :: y) hy' _ _ _ o h (by omega)
+      · rw [eatIndent_stop _ _ _ _ h32 h9 h35 h12 h13 h10] at h ⊢
+        exact h
+
+/-- where `eat_indentation` stops with `at_begin_of_line` cleared: in front of a character that is not a layout
+    character other than the backslash -/
+theorem eatIndent_stops_lay {l : List Nat} {k pos s t : Nat} {o : EatOut} (h : eatIndent false l k pos s t = .ok o)
+    (hb : o.atBol = false) :
+    ∃ i c rest, o.pos = pos + i ∧ l.drop i = c :: rest ∧ (Lay c → c = 92) := by
+  fun_induction eatIndent false l k pos s t generalizing o
+  case case1 => simp at h; subst h; simp at hb
+  case case11 c cs pos s t h32 h9 h35 h12 _ h13 h10 =>
+    simp at h; subst h
+    refine ⟨0, c, cs, rfl, rfl, ?_⟩
+    intro hl
+    rcases hl with rfl | rfl | rfl | rfl | rfl | rfl | rfl <;> simp_all
+  case case4 => simp at h
+  all_goals
+    try simp only [addTok_false] at h
+    rename_i ih
+    obtain ⟨i, c, rest, h1, h2, h3⟩ := ih h hb
+    first
+      | exact ⟨i + 1, c, rest, by omega, by simpa using h2, h3⟩
+      | exact ⟨i + 2, c, rest, by omega, by simpa using h2, h3⟩
+
 end PV.C08
